@@ -883,4 +883,191 @@ theorem get_hit_mono {w : World} (hw : worldClean w = true) (hpo : pathsOk w = t
         rw [hy]
         exact congrArg Res.ok (get_unique hw hI.sound hI'.sound iface iface r o o' c y h hy).symm
 
+/-! ### worlds in which every provider can be discovered from the registered search paths -/
+
+/-- the search list of `Bank.get` as a set: the registered paths and the candidates the reference derives from them -/
+def rawTodo (b : Bank) (r : Ref) : List PathE := b.paths ++ refPaths r b.paths
+
+theorem mem_todoPaths_of_raw {b : Bank} {r : Ref} {o : List Mod} (ho : validOrder b.paths o = true) {p : PathE}
+    (hp : p ∈ rawTodo b r) : p ∈ todoPaths b r o := by
+  have hbase : ∀ q, q ∈ b.paths → q ∈ sortPaths (arrange b.paths o) :=
+    fun q hq => (sortPaths_perm_self _).mem_iff.2 (mem_arrange_of_valid ho hq)
+  simp only [rawTodo, List.mem_append] at hp
+  simp only [todoPaths, List.mem_reverse, List.mem_append]
+  rcases hp with hp | hp
+  · exact Or.inl (hbase p hp)
+  · right
+    cases r with
+    | qual c => simpa [refPaths] using hp
+    | alias a =>
+      simp only [refPaths, List.mem_filterMap] at hp ⊢
+      obtain ⟨q, hq, hqp⟩ := hp
+      exact ⟨q, hbase q hq, hqp⟩
+
+/-- every reference of every concrete class below the interface is bound already or can be found from the search
+paths registered for the interface (decidable): the layout of `forml.provider.*` — providers in sub-modules named
+after their alias, or listed in the package's `__all__` -/
+def discoverable (w : World) (st : St) (iface : ClassId) : Bool :=
+  (allClasses w).all fun c =>
+    c.abstract || !(c.id :: c.parents).contains iface ||
+      (refs c).all fun r =>
+        (lookupRef r (getBank iface st.banks).provider).isSome || found w iface r (rawTodo (getBank iface st.banks) r)
+
+/-- history independence in a discoverable, defect-free world: whatever was imported or looked up in between — hits,
+misses, other references, other interfaces, failing imports — `Service[reference]` answers as it would have at once -/
+theorem get_history_free {w : World} (hw : worldClean w = true) (hpo : pathsOk w = true) (hpk : pkgsExist w = true)
+    {st : St} (hI : Inv w st) (iface : ClassId) (hd : discoverable w st iface = true) (ops : List HOp) (r : Ref)
+    (o o' : List Mod) (ho : validOrder (getBank iface st.banks).paths o = true)
+    (ho' : validOrder (getBank iface (runHist w st ops).banks).paths o' = true) :
+    (get w (runHist w st ops) iface r o').2 = (get w st iface r o).2 := by
+  have hI' := inv_runHist hw hpo ops st hI
+  have hle := runHist_le w ops st
+  by_cases hcar : ∃ c ∈ allClasses w, c.abstract = false ∧ iface ∈ c.id :: c.parents ∧ r ∈ refs c
+  · obtain ⟨c, hc, ha, hi, hr⟩ := hcar
+    have hone : ∃ y, (get w st iface r o).2 = .ok y := by
+      simp only [discoverable, List.all_eq_true, Bool.or_eq_true, Bool.not_eq_true', List.contains_eq_mem,
+        decide_eq_false_iff_not] at hd
+      rcases hd c hc with (h1 | h1) | h1
+      · rw [ha] at h1; cases h1
+      · exact absurd hi h1
+      · rcases h1 r hr with h2 | h2
+        · cases hb : lookupRef r (getBank iface st.banks).provider with
+          | none => simp [hb] at h2
+          | some y => exact ⟨y, get_of_bound w st iface r o y hb⟩
+        · cases hb : lookupRef r (getBank iface st.banks).provider with
+          | some y => exact ⟨y, get_of_bound w st iface r o y hb⟩
+          | none =>
+            exact (get_unbound hw hpo hpk hI iface r o hb).1
+              (found_mono (fun p hp => mem_todoPaths_of_raw ho hp) h2)
+    obtain ⟨y, hy⟩ := hone
+    rw [hy]
+    exact get_hit_mono hw hpo hpk hI hI' hle iface r o o' ho' y hy
+  · have hmiss : ∀ (s : St) (os : List Mod), Inv w s → (get w s iface r os).2 = .error .missing := by
+      intro s os hs
+      have hb : lookupRef r (getBank iface s.banks).provider = none := by
+        cases hb : lookupRef r (getBank iface s.banks).provider with
+        | none => rfl
+        | some y =>
+          exfalso
+          obtain ⟨m, _, d, hd', c, hc, hcarr⟩ := hs.src iface r y hb
+          exact hcar ⟨c, (inWorld_iff w c).1 ⟨m, d, findMod_mem hd', hc⟩, hcarr.1, hcarr.2.2.2, hcarr.2.1⟩
+      apply (get_unbound hw hpo hpk hs iface r os hb).2
+      cases hf : found w iface r (todoPaths (getBank iface s.banks) r os) with
+      | false => rfl
+      | true =>
+        exfalso
+        simp only [found, List.any_eq_true] at hf
+        obtain ⟨p, _, m, _, hcin⟩ := hf
+        obtain ⟨d, hd', c, hc, x, hcarr⟩ := carriesIn_iff.1 hcin
+        exact hcar ⟨c, (inWorld_iff w c).1 ⟨m, d, findMod_mem hd', hc⟩, hcarr.1, hcarr.2.2.2, hcarr.2.1⟩
+    rw [hmiss _ o' hI', hmiss _ o hI]
+
+/-! ### asking twice -/
+
+/-- every class statement that declares search paths (`path=`) lives in a module that is imported already (decidable):
+no lookup can register a search path that the bank does not have yet -/
+def pathsSettled (w : World) (st : St) : Bool :=
+  w.all (fun e => st.loaded.contains e.1 || e.2.classes.all (fun c => c.paths.isEmpty))
+
+/-- relative to a settled state `st`: nothing of `st` was unloaded and no bank has a path that it did not have in `st` -/
+def NoNewPaths (st : St) (s : St) : Prop :=
+  (∀ m ∈ st.loaded, m ∈ s.loaded) ∧ ∀ i, ∀ p ∈ (getBank i s.banks).paths, p ∈ (getBank i st.banks).paths
+
+theorem noNewPaths_execStable {w : World} {st : St} (hset : pathsSettled w st = true) : ExecStable w (NoNewPaths st) := by
+  intro s m r hP hr
+  have hle := execMod_le w s m r hr
+  refine ⟨fun x hx => hle.2 x (hP.1 x hx), ?_⟩
+  unfold execMod at hr
+  cases hf : findMod m w with
+  | none => simp [hf] at hr
+  | some d =>
+    simp only [hf] at hr
+    by_cases hl : m ∈ s.loaded
+    · simp [hl] at hr; subst hr; exact hP.2
+    · simp only [List.contains_eq_mem, hl, decide_false] at hr
+      have hpaths := execClasses_paths d.classes s
+      have hempty : ∀ c ∈ d.classes, c.paths = [] := by
+        simp only [pathsSettled, List.all_eq_true, Bool.or_eq_true, List.contains_eq_mem, decide_eq_true_eq,
+          List.isEmpty_iff] at hset
+        rcases hset (m, d) (findMod_mem hf) with h | h
+        · exact absurd (hP.1 m h) hl
+        · exact h
+      have key : ∀ i, ∀ p ∈ (getBank i (execClasses s d.classes).1.banks).paths, p ∈ (getBank i st.banks).paths := by
+        intro i p hp
+        rcases hpaths i p hp with h | ⟨c, hc, hpc⟩
+        · exact hP.2 i p h
+        · rw [hempty c hc] at hpc; simp at hpc
+      cases he : execClasses s d.classes with
+      | mk s1 e1 =>
+        rw [he] at key
+        cases e1 with
+        | some e => simp [he] at hr; subst hr; exact key
+        | none => simp [he] at hr; subst hr; exact key
+
+/-- asking again gives the same answer, provided no class that is still to be discovered declares search paths -/
+theorem get_repeat {w : World} (hw : worldClean w = true) (hpo : pathsOk w = true) (hpk : pkgsExist w = true)
+    {st : St} (hI : Inv w st) (hset : pathsSettled w st = true) (iface : ClassId) (r : Ref) (o o' : List Mod)
+    (ho : validOrder (getBank iface st.banks).paths o = true)
+    (ho' : validOrder (getBank iface (get w st iface r o).1.banks).paths o' = true) :
+    (get w (get w st iface r o).1 iface r o').2 = (get w st iface r o).2 := by
+  have hI' : Inv w (get w st iface r o).1 := get_lift (inv_execStable hw hpo) st iface r o hI
+  have hle := get_le w st iface r o
+  have hnp : NoNewPaths st (get w st iface r o).1 :=
+    get_lift (noNewPaths_execStable hset) st iface r o ⟨fun _ h => h, fun _ _ h => h⟩
+  cases h1 : (get w st iface r o).2 with
+  | ok c => exact get_hit_mono hw hpo hpk hI hI' hle iface r o o' ho' c h1
+  | error e =>
+    -- the first lookup was a miss: the reference is unbound before and after it, and nothing new can be found
+    have hb : lookupRef r (getBank iface st.banks).provider = none := by
+      cases hb : lookupRef r (getBank iface st.banks).provider with
+      | none => rfl
+      | some y => rw [get_of_bound w st iface r o y hb] at h1; cases h1
+    have hu := get_unbound hw hpo hpk hI iface r o hb
+    have hf : found w iface r (todoPaths (getBank iface st.banks) r o) = false := by
+      cases hf : found w iface r (todoPaths (getBank iface st.banks) r o) with
+      | false => rfl
+      | true => obtain ⟨y, hy⟩ := hu.1 hf; rw [hy] at h1; cases h1
+    have he : e = .missing := by
+      have := hu.2 hf
+      rw [h1] at this
+      cases this
+      rfl
+    subst he
+    have hb' : lookupRef r (getBank iface (get w st iface r o).1.banks).provider = none := by
+      cases hb' : lookupRef r (getBank iface (get w st iface r o).1.banks).provider with
+      | none => rfl
+      | some y =>
+        exfalso
+        obtain ⟨m, hml, d, hd, c, hc, hcarr⟩ := hI'.src iface r y hb'
+        -- the module was imported by the first lookup, whose search list would then have found the reference
+        have hnew : m ∈ st.loaded ∨ ∃ p ∈ todoPaths (getBank iface st.banks) r o, m ∈ covers w p.mod := by
+          have := getLoop_new w iface r (todoPaths (getBank iface st.banks) r o) st m
+          unfold get at hml
+          simp only [hb] at hml
+          cases hl : getLoop w iface r st (todoPaths (getBank iface st.banks) r o) with
+          | mk s1 e1 =>
+            rw [hl] at this hml
+            apply this
+            cases e1 with
+            | some e => simpa [finish] using hml
+            | none =>
+              simp only [finish] at hml
+              split at hml <;> exact hml
+        rcases hnew with h0 | ⟨p, hp, hcov⟩
+        · have := hI.reg m h0 d hd c hc hcarr.1 iface hcarr.2.2.2 r hcarr.2.1
+          rw [hb] at this
+          cases this
+        · have : found w iface r (todoPaths (getBank iface st.banks) r o) = true := by
+            simp only [found, List.any_eq_true]
+            exact ⟨p, hp, m, hcov, carriesIn_iff.2 ⟨d, hd, c, hc, y, hcarr⟩⟩
+          rw [hf] at this
+          cases this
+    apply (get_unbound hw hpo hpk hI' iface r o' hb').2
+    cases hf' : found w iface r (todoPaths (getBank iface (get w st iface r o).1.banks) r o') with
+    | false => rfl
+    | true =>
+      have := found_mono (fun p hp => todoPaths_mono (hnp.2 iface) r o' o ho hp) hf'
+      rw [hf] at this
+      cases this
+
 end ForML.Bank
